@@ -9,6 +9,7 @@ package dsim
 
 import (
 	"fmt"
+	"os"
 	"strings"
 	"time"
 )
@@ -85,6 +86,15 @@ func (a *aofRun) rewriteConc(i int) (int, bool) {
 	var rw *Result
 	rwc := s.NewEmbeddedClient(a.inst, fmt.Sprintf("g%drw%d", a.gen, i))
 	rwc.Start([]string{"REWRITEAOF"}, func(r Result) { rw = &r })
+	// "twin" phases: a second connection asks for a rewrite at the same moment. It is either refused ("rewrite in
+	// progress") or runs after the first one; in both cases writers stay excluded while a rewrite copies the state
+	// and replaces the files.
+	twin := p.Ops[i].S == "twin"
+	var rw2 *Result
+	if twin {
+		s.NewEmbeddedClient(a.inst, fmt.Sprintf("g%drx%d", a.gen, i)).Start([]string{"REWRITEAOF"}, func(r Result) { rw2 = &r })
+		a.names = append(a.names, "||REWRITEAOF")
+	}
 	for _, w := range ws {
 		w := w
 		a.names = append(a.names, "||"+strings.ToUpper(w.args[0]))
@@ -94,6 +104,29 @@ func (a *aofRun) rewriteConc(i int) (int, bool) {
 	phaseStart := last
 	crashAt := int(p.Ops[i].N) // 0 = no crash inside the phase
 	directed, sawHeld, holdSteps := len(ws) > 0 && a.dice.Next(3) == 0, false, 0
+	// twin phases, two in three: both rewrite requests are first taken past the "in progress" test to the engine's
+	// door, so that they overlap instead of one being refused
+	isRw := func(x *Task) bool {
+		return strings.Contains(x.Name, "rewriteaof") || x.Site == "rewrite.lock" || x.Site == "lock.aof.engine" || x.Site == "rewrite.after_preamble" || strings.HasPrefix(x.Site, "getState") || x.Site == "spin:getState.wait"
+	}
+	twinDirected, preambles, writerSteps := false, 0, 0
+	if twin && a.dice.Next(3) > 0 {
+		twinDirected = len(ws) > 0
+		directed = false
+		for k := 0; k < 40; k++ {
+			var next *Task
+			for _, x := range s.ParkedTasks() {
+				if (strings.Contains(x.Name, "rw") || strings.Contains(x.Name, "rx")) && x.Site != "rewrite.lock" && x.Site != "lock.aof.engine" {
+					next = x
+				}
+			}
+			if next == nil {
+				break
+			}
+			s.noteChoice(1, next.Site)
+			s.Release(next)
+		}
+	}
 	for step := 0; step < 4000; step++ {
 		if crashAt > 0 && step == crashAt && len(ws) > 0 {
 			return consumed, a.crashInConc(phaseStart, ws2groups(len(ws), func(j int) ([]string, bool) { return ws[j].keys, ws[j].res != nil }), rw != nil)
@@ -101,7 +134,7 @@ func (a *aofRun) rewriteConc(i int) (int, bool) {
 		parked := s.ParkedTasks()
 		if len(parked) == 0 {
 			// a TCP reply may still be in flight, or the rewrite goroutine sleeps on the fake clock
-			if rw != nil {
+			if rw != nil && (!twin || rw2 != nil) {
 				break
 			}
 			s.Advance(time.Millisecond)
@@ -112,6 +145,42 @@ func (a *aofRun) rewriteConc(i int) (int, bool) {
 			continue
 		}
 		tk, stuck := PickFair(parked, a.dice.Next(len(parked)), 300)
+		// twin phases: the rewrites run alone until the second one stands between its state copy and the truncation
+		// of the log; then the writers get every step they can take - during a rewrite they must be held back,
+		// whichever request it was that announced it
+		if twinDirected && !stuck {
+			var rwT, atPre, wT, atDoor *Task
+			for _, x := range parked {
+				switch {
+				case isRw(x) && x.Site == "rewrite.after_preamble":
+					atPre = x
+				case isRw(x) && x.Site == "rewrite.lock":
+					atDoor = x
+				case isRw(x):
+					rwT = x
+				case wT == nil || x.Spins < wT.Spins:
+					wT = x
+				}
+			}
+			// the request still at the door goes to queue behind the running rewrite as soon as there is one
+			if atDoor != nil && (rwT != nil || atPre != nil || preambles > 0) || rwT == nil {
+				rwT = atDoor
+			}
+			switch {
+			case atPre != nil && preambles == 0:
+				tk = atPre
+				preambles++
+			case atPre != nil && wT != nil && wT.Spins < 6 && writerSteps < 80:
+				tk = wT
+				writerSteps++
+			case atPre != nil:
+				twinDirected = false
+			case rwT != nil && rwT.Spins < 6:
+				tk = rwT
+			default:
+				twinDirected = false
+			}
+		}
 		// directed third of the phases: a writer is taken to the point between its handler and its log append and
 		// held there while the rewrite gets every step it can take - the window in which a rewrite must not run
 		if directed && !stuck {
@@ -144,6 +213,13 @@ func (a *aofRun) rewriteConc(i int) (int, bool) {
 				directed = false
 			}
 		}
+		if twin && os.Getenv("DSIM_DEBUG_TWIN") != "" {
+			fmt.Fprintf(os.Stdout, "twin step %d dir=%v pre=%d: pick %s@%s of", step, twinDirected, preambles, tk.Name, tk.Site)
+			for _, x := range parked {
+				fmt.Fprintf(os.Stdout, " %s@%s/%d", x.Name, x.Site, x.Spins)
+			}
+			fmt.Fprintln(os.Stdout)
+		}
 		s.noteChoice(len(parked), tk.Site)
 		if stuck {
 			a.fail("livelock/"+tk.Site, fmt.Sprintf("REWRITEAOF with concurrent writers %v: task t%d spun %d times at %s and nothing else can change the flag", a.names[len(a.names)-len(ws):], tk.ID, tk.Spins, tk.Site))
@@ -163,6 +239,30 @@ func (a *aofRun) rewriteConc(i int) (int, bool) {
 	if rw.Panic != "" {
 		a.fail("panic/"+topRepoFrame(rw.Panic), "REWRITEAOF: "+rw.Panic)
 		return consumed, false
+	}
+	if twin {
+		if rw2 == nil {
+			a.fail("rewrite-never-completed", "the second of two simultaneous REWRITEAOF requests did not return")
+			return consumed, false
+		}
+		if rw2.Panic != "" {
+			a.fail("panic/"+topRepoFrame(rw2.Panic), "REWRITEAOF: "+rw2.Panic)
+			return consumed, false
+		}
+		// one of two simultaneous requests may be refused, not both
+		busy := func(r *Result) bool {
+			return r.IsError() && strings.Contains(strings.ToLower(r.Err+" "+r.Reply.Str), "in progress")
+		}
+		switch {
+		case busy(rw) && busy(rw2):
+			a.fail("rewrite-error/both-refused", "two simultaneous REWRITEAOF requests were both refused as 'in progress'")
+			return consumed, false
+		case busy(rw):
+			rw = rw2
+		case busy(rw2):
+		case rw2.IsError():
+			rw = rw2
+		}
 	}
 	if rw.IsError() {
 		a.fail("rewrite-error", fmt.Sprintf("REWRITEAOF (concurrent writers) failed: %s %s", rw.Err, rw.Reply.Str))
